@@ -444,6 +444,24 @@ def _independent_reads(db, rep):
         r8.violation('to_json(%s)' % ptype, f.loc(ap), '`%s` appends to a JSON array inside a loop over `%s`, a hash container: the order of the array depends on the insertion history, the loader re-inserts in document order, so the array comes out in a different order after every load' % ((ap.get('txt') or '')[:50], (f.stmts[lp['range']].get('txt') or '')[:40]))
     if n_w and not hits:
         r8.ok('writers', '%d to_json writers: no JSON array is filled from a hash container' % n_w)
+    # ---------------------------------------------------------------- r12
+    r12 = rep.rule('r12', 'LOAD-STORES: the loaders of model values (rsValuesFacet::LoadData) hand what the document holds to the internal setter on every path: whether a stored value is kept never depends on what else has been loaded so far '
+                          '(values are loaded in uid order, base-set interpretations among them)', 3)
+    from engine.cfgq import success_exits as _sx
+    VF = 'ccl::semantic::rsValuesFacet'
+    loaders = [f for f in db.functions if f.name == VF + '::LoadData' and f.has_cfg()]
+    if not loaders:
+        r12.broken('anchor vanished: rsValuesFacet::LoadData')
+    for f in loaders:
+        ptype = f.rec['params'][-1]['type'].replace('const ', '').replace('&', '').strip().split('::')[-1]
+        stores = [f.position_of(c) for c in f.calls() if c['k'] == 'CXXMemberCallExpr' and (c.get('cs') or '').startswith(VF + '::Set') and (c.get('cs') or '').endswith('Internal')]
+        stores += [f.position_of(c) for c in f.calls() if (c.get('cs') or '').split('::')[-1] in ('SetRSInterpretationFor', 'SetTextInterpretationFor', 'SetStatementFor')]
+        stores = [p_ for p_ in stores if p_ is not None]
+        if not stores or paths_avoiding(f, [f.graph()[1]], stores, _sx(f, failure_literals=())):
+            r12.violation('LoadData(%s)' % ptype, '%s:%d' % (f.file, f.line), 'a path through the loader stores nothing: the value in the document is dropped depending on the state at that moment of the load '
+                          '(a structure whose uid is smaller than that of its base set is checked against an interpretation that is still empty), so the loaded model and the document written from it differ')
+        else:
+            r12.ok('LoadData(%s)' % ptype, 'stores on every path', '%s:%d' % (f.file, f.line))
     # ---------------------------------------------------------------- r11
     r11 = rep.rule('r11', 'RESOLUTION-IDEMPOTENT (hosted here, a clause of C17 too): loading re-resolves every term (Thesaurus::UpdateState, OnTermChange interpreted); doing it again changes no resolved text, '
                           'also when term references form a loop - otherwise every load / save cycle writes a different document', 2)
